@@ -14,7 +14,9 @@ fn main() {
     // one rayon worker: the repo's parallel code paths run, on a single schedule (assumption A1)
     let _ = rayon::ThreadPoolBuilder::new().num_threads(1).build_global();
     // silence panic backtraces of expected panics inside catch_unwind (messages are kept in the results)
-    std::panic::set_hook(Box::new(|_| {}));
+    if std::env::var("SYMX_BACKTRACE").is_err() {
+        std::panic::set_hook(Box::new(|_| {}));
+    }
     let args: Vec<String> = std::env::args().collect();
     let cmd = args.get(1).map(|s| s.as_str()).unwrap_or("");
     let tier = match arg(&args, "--tier").as_deref() {
